@@ -520,9 +520,11 @@ def gen_buffer_sites():
 
 # ---------------------------------------------------------------------------
 # pinned text of the routines Model/Buffers.lean mirrors (NOTE_PINNING.md).  The routines with an
-# open defect (item.cc parse_tags, format.cc parse_elements, option.cc find_option, utils.cc
-# split_arguments, global.cc prompt_string) are NOT pinned here: sites() matches their text exactly
-# against the current shape and the repaired shapes, so repairing them does not need a re-pin.
+# open defect at the pinned commit (item.cc parse_tags, format.cc parse_elements, option.cc find_option,
+# utils.cc split_arguments, global.cc prompt_string) are pinned WITH THE INTERPRETED SPOTS MASKED: the
+# statements that sites() reads into the table (array sizes, the length guards in their accepted shapes)
+# are replaced by placeholders inside the pinned text, so adding/repairing a guard needs no re-pin while
+# any other edit to those functions (e.g. to the %$N back-reference walk of parse_elements) breaks the rfl.
 
 PINNED_FNS = [
     ("amount.cc", [("amount.cc:parse_quantity", r"void\s+parse_quantity\(std::istream& in, string& value\)\s*\{")]),
@@ -534,6 +536,54 @@ PINNED_FNS = [
     ("parser.cc", [("parser.cc:parse_value_term", r"expr_t::parser_t::parse_value_term\(std::istream&\s+in,\s*const parse_flags_t& tflags\) const\s*\{")]),
     ("utils.h", [("utils.h:peek_next_nonws", r"inline int peek_next_nonws\(std::istream& in\)\s*\{")]),
 ]
+
+
+GUARD_THROW = r"(?:throw_\((?:[^()]|\([^()]*\))*\);|throw [^;]*;|return;)"
+
+
+def masked_pins():
+    """(key, body text with the table-interpreted spots replaced by placeholders) for the five routines whose
+    guards sites() interprets."""
+    out = []
+
+    def mask(text, subs, where):
+        t = extract.norm_ws(text)
+        for pat, repl, lo, hi in subs:
+            t, n = re.subn(pat, repl, t)
+            need(lo <= n <= hi, "%s: expected %d..%d occurrences of the interpreted spot %s, found %d" % (where, lo, hi, repl, n))
+        return t
+    # format.cc parse_elements
+    body = function_body(_text("format.cc"), r"format_t::element_t \* format_t::parse_elements\(const string& fmt,\s*const optional<format_t&>& tmpl\)\s*\{")
+    out.append(("format.cc:parse_elements(masked)", mask(body, [
+        (r"static char buf\[\d+\];", "static char buf[<CAP>];", 1, 1),
+        (r"if \((?:static_cast<std::size_t>\()?q - buf\)? (?:>=|>) (?:\d+|sizeof\(buf\)(?: - 1)?)\) " + GUARD_THROW + r" (?=\*q\+\+ = \*p; continue;)", "<LITERAL-GUARD> ", 0, 1),
+        (r"(?<=if \(\*p == '\\\\'\) \{ p\+\+; )if \(\s*!\s*\*p\s*\) " + GUARD_THROW + " ", "<BACKSLASH-GUARD> ", 0, 1),
+    ], "format.cc:parse_elements")))
+    # item.cc parse_tags
+    body = function_body(_text("item.cc"), r"void\s+item_t::parse_tags\(const char \* p,\s*scope_t&\s+scope,\s*bool\s+overwrite_existing\)\s*\{")
+    out.append(("item.cc:parse_tags(masked)", mask(body, [
+        (r"char buf\[\d+\];", "char buf[<CAP>];", 1, 1),
+        (r"if \((?:static_cast<std::size_t>\()?e - b - 1\)? (?:>=|>) (?:\d+|sizeof\(buf\)(?: - 1)?)\) " + GUARD_THROW + " ", "<LENGTH-GUARD> ", 0, 1),
+    ], "item.cc:parse_tags")))
+    # option.cc find_option(name)
+    body = function_body(_text("option.cc"), r"op_bool_tuple find_option\(scope_t& scope, const string& name\)\s*\{")
+    out.append(("option.cc:find_option(masked)", mask(body, [
+        (r"char buf\[\d+\];", "char buf[<CAP>];", 1, 1),
+        (r"if \(name\.length\(\) (?:>=|>) \d+\)", "if (name.length() <GUARD>)", 1, 1),
+    ], "option.cc:find_option")))
+    # utils.cc split_arguments
+    body = function_body(_text("utils.cc"), r"strings_list split_arguments\(const char \* line\)\s*\{")
+    out.append(("utils.cc:split_arguments(masked)", mask(body, [
+        (r"char buf\[\d+\];", "char buf[<CAP>];", 1, 1),
+        (r"if \(q - buf (?:>=|>) (?:\d+|sizeof\(buf\) - 1)\) " + GUARD_THROW + " ", "<LENGTH-GUARD> ", 0, 2),
+    ], "utils.cc:split_arguments")))
+    # global.cc prompt_string
+    body = function_body(_text("global.cc"), r"char \* global_scope_t::prompt_string\(\)\s*\{")
+    out.append(("global.cc:prompt_string(masked)", mask(body, [
+        (r"static char prompt\[\d+\];", "static char prompt[<CAP>];", 1, 1),
+        (r" && i < (?:\d+|sizeof\(prompt\) - 2)(?=; i\+\+\))", " <BOUND>", 0, 1),
+    ], "global.cc:prompt_string")))
+    return out
 
 
 def gen_buffer_fns():
@@ -561,6 +611,7 @@ def gen_buffer_fns():
     m = re.search(r"(string::size_type sep = acct_name\.find.*?rest\s*= acct_name\.c_str\(\) \+ sep \+ 1;\s*\})", body, flags=re.S)
     need(m, "account.cc:find_account: head fragment not found")
     pairs.append(("account.cc:find_account:head", extract.norm_ws(m.group(1))))
+    pairs += masked_pins()
     src_list = "src/utils.h, amount.cc, commodity.cc, annotate.cc, token.cc, textual.cc, journal.cc, parser.cc, times.cc, account.cc"
     return extract.gen_pairs("Normalised text of the bounded-copy routines, loops and guards that Model/Buffers.lean mirrors.",
                              "bufferFns", pairs, src_list).replace("tools/extract.py", "tools/extract_buffers.py")
